@@ -5,6 +5,7 @@
 #include <string>
 
 #include "../common/json.hpp"
+#include "../ref/ref_lexer.hpp"
 #include "../common/tape.hpp"
 #include "Compiler/include/compiler.hpp"
 #include "Compiler/include/macro.hpp"
@@ -33,5 +34,59 @@ inline uint64_t files_hash(const Files &files, const std::string &main) {
 inline void files_from_json(const verif::J &c, Files &files, std::string &main) {
   for (auto &p : c.at("files").o) files[p.first] = p.second.s;
   main = c.at("main").s;
+}
+inline ref::K kind_of(Theo::Token::Type t) {
+  using T = Theo::Token;
+  switch (t) {
+    case T::T_EOF: return ref::K::T_EOF;
+    case T::ID: return ref::K::ID;
+    case T::NV_ID: return ref::K::NV_ID;
+    case T::INT: return ref::K::INT;
+    case T::PAREN_CLOSE: return ref::K::PAREN_CLOSE;
+    case T::PAREN_OPEN: return ref::K::PAREN_OPEN;
+    case T::ARGSEP: return ref::K::ARGSEP;
+    case T::PROGSEP: return ref::K::PROGSEP;
+    case T::LABELDEC: return ref::K::LABELDEC;
+    case T::ASSIGN: return ref::K::ASSIGN;
+    case T::NEQ_ZERO: return ref::K::NEQ_ZERO;
+    case T::EQ: return ref::K::EQ;
+    case T::DO: return ref::K::DO;
+    case T::LOOP: return ref::K::LOOP;
+    case T::WHILE: return ref::K::WHILE;
+    case T::GOTO: return ref::K::GOTO;
+    case T::IF: return ref::K::IF;
+    case T::THEN: return ref::K::THEN;
+    case T::STOP: return ref::K::STOP;
+    case T::END: return ref::K::END;
+    case T::PROGRAM: return ref::K::PROGRAM;
+    case T::IN: return ref::K::IN;
+    case T::OUT: return ref::K::OUT;
+    case T::INCLUDE: return ref::K::INCLUDE;
+    case T::FNAME: return ref::K::FNAME;
+    case T::DEFINE: return ref::K::DEFINE;
+    case T::AS: return ref::K::AS;
+    case T::PRIORITY: return ref::K::PRIORITY;
+    case T::END_DEFINE: return ref::K::END_DEFINE;
+    case T::PROG_TEMP: return ref::K::PROG_TEMP;
+    case T::VALUE_TEMP: return ref::K::VALUE_TEMP;
+    case T::ID_TEMP: return ref::K::ID_TEMP;
+    case T::INT_TEMP: return ref::K::INT_TEMP;
+    case T::ARGS_TEMP: return ref::K::ARGS_TEMP;
+    case T::INSERTION: return ref::K::INSERTION;
+    case T::TEMP_VAL: return ref::K::TEMP_VAL;
+    case T::RUN: return ref::K::RUN;
+    case T::WITH: return ref::K::WITH;
+    default: return ref::K::NONE;
+  }
+}
+
+
+inline ref::Tok to_ref(const Theo::Token &t) {
+  ref::Tok r;
+  r.k = kind_of(t.t);
+  r.text = t.text;
+  r.file = t.file;
+  r.line = t.line;
+  return r;
 }
 }  // namespace glue
